@@ -93,13 +93,13 @@ func init() {
 				t := e.T
 				cfg := srvCfg{prop: "C15", nConns: t.Range(3, 4), msgsPer: [2]int{1, 5}, parkPct: 25, answerPct: 100,
 					panicPct: 1, malformed: true, rst: true, acceptErrs: true, lateConn: true, extraReg: true,
-					nilHandler: t.Chance(1, 4), tlsStall: t.Chance(1, 4), idxRegs: t.Chance(1, 3)}
+					nilHandler: t.Chance(1, 4), tlsStall: t.Chance(1, 4), idxRegs: t.Chance(1, 3), cnTasks: t.Chance(1, 3)}
 				newSrvWorld(e, cfg).run()
 			}},
 			{Name: "sctp-faults", Weight: 1, Bubble: true, Run: c15Sctp},
 			{Name: "fault-while-a-write-is-stuck", Weight: 1, Bubble: true, Run: c15StuckWrite},
 			{Name: "sweep-placement", Bubble: true, Run: c15Sweep, SweepN: c15SweepN, QuickSweep: true, Exhaustive: true,
-				SweepNote: "3 connections x 3 requests; one fault of each of 12 kinds (handler panic, reset mid-message, 10 kinds of undecodable message) at every (connection, position), with 0 or 3 temporary accept errors first; the delivery/release schedule of each case is seeded: 288 cases"},
+				SweepNote: "3 connections x 3 requests; one fault of each of 13 kinds (handler panic, reset mid-message, 11 kinds of undecodable message) at every (connection, position), with 0 or 3 temporary accept errors first; the delivery/release schedule of each case is seeded: 312 cases"},
 		},
 		MustProbes: []string{"late-connection", "malformed-reported", "recovered-panic-logged", "runtime-registration", "sctp-read-error", "long-accept-error-run", "default-serve-mux", "tls-handshake-stalled", "fault-with-stuck-write"},
 	})
@@ -112,7 +112,7 @@ func c16Tcp(e *Env) {
 	newSrvWorld(e, cfg).run()
 }
 
-func c15SweepN(thorough bool) int { return 3 * 4 * 12 * 2 }
+func c15SweepN(thorough bool) int { return 3 * 4 * 13 * 2 }
 
 func c15Sweep(e *Env) {
 	k := e.Case
@@ -121,8 +121,8 @@ func c15Sweep(e *Env) {
 	k /= 3
 	f.pos = k % 4
 	k /= 4
-	kind := k % 12
-	k /= 12
+	kind := k % 13
+	k /= 13
 	f.acceptErrs = k * 3
 	switch {
 	case kind == 0:
